@@ -38,6 +38,8 @@ type config struct {
 	PropSeed uint64
 	FireSeed uint64
 	Addrs    []A `json:"-"`
+	// Force overrides fires() for single (height, round)s: the step whose timer expires (255 = none)
+	Force map[hr]types.Step `json:"-"`
 }
 
 func (c *config) String() string {
@@ -70,6 +72,9 @@ func (c *config) proposerIdx(h types.Height, r types.Round) int {
 // outcome does not depend on the order in which simultaneously expired timers reach
 // the driver (a timeout only acts in its own height and round).
 func (c *config) fires(tm types.Timeout) bool {
+	if st, ok := c.Force[hr{tm.Height, tm.Round}]; ok {
+		return st == tm.Step
+	}
 	x := splitmix(c.FireSeed ^ uint64(tm.Height)*0x9e3779b1 ^ uint64(tm.Round+3)*0xc2b2ae35)
 	switch x % 4 {
 	case 0:
@@ -189,11 +194,15 @@ func randomNoise(rng *rand.Rand, cfg *config, h types.Height, n int) []input {
 // that fail in different ways, then a round that decides), shuffled, with early and
 // duplicated messages; round changes are forced by the next round's messages (f+1
 // rule) so that the story also advances when no timer ever fires.
-func genScript(rng *rand.Rand, cfg *config, h0 types.Height, nH int) []input {
+func genScript(rng *rand.Rand, cfg *config, h0 types.Height, nH int, templates bool) []input {
 	peers := cfg.peers()
 	var perHeight [][]input
 	for hi := 0; hi < nH; hi++ {
 		h := h0 + types.Height(hi)
+		if templates && rng.IntN(8) == 0 && cfg.proposerIdx(h, 0) != cfg.Me && cfg.proposerIdx(h, 1) != cfg.Me {
+			perHeight = append(perHeight, latePolka(cfg, h))
+			continue
+		}
 		nR := pick(rng, 1, 1, 1, 2, 2, 3)
 		undecided := hi == nH-1 && rng.IntN(3) == 0
 		var polka *valRef
@@ -369,4 +378,37 @@ func genScript(rng *rand.Rand, cfg *config, h0 types.Height, nH int) []input {
 		out = append(out, f...)
 	}
 	return out
+}
+
+// latePolka: round 0 fails with only two prevotes for v (the node's and one peer's);
+// round 1 re-proposes v with valid round 0 and gathers two prevotes and two precommits;
+// then the third round-0 prevote arrives late. That single round-0 message makes the
+// node prevote and precommit v in round 1 - which completes the precommit quorum of
+// round 1 while the state machine only looks for a decision in the round of the message
+// it just received.
+func latePolka(cfg *config, h types.Height) []input {
+	pe := cfg.peers()
+	a, b, c := pe[0], pe[1], pe[2]
+	val := valRef{Fixed: peerVal(h, 0, 0, false)}
+	nilv := valRef{Nil: true}
+	if cfg.Force == nil {
+		cfg.Force = map[hr]types.Step{}
+	}
+	cfg.Force[hr{h, 0}] = 255
+	cfg.Force[hr{h, 1}] = types.StepPrevote
+	return []input{
+		{Kind: kProposal, H: h, R: 0, From: cfg.proposerIdx(h, 0), VR: -1, Val: val},
+		{Kind: kPrevote, H: h, R: 0, From: a, Val: val},
+		{Kind: kPrecommit, H: h, R: 0, From: a, Val: nilv},
+		{Kind: kPrecommit, H: h, R: 0, From: b, Val: nilv},
+		{Kind: kPrecommit, H: h, R: 0, From: c, Val: nilv},
+		{Kind: kProposal, H: h, R: 1, From: cfg.proposerIdx(h, 1), VR: 0, Val: val},
+		{Kind: kPrevote, H: h, R: 1, From: a, Val: val},
+		{Kind: kPrevote, H: h, R: 1, From: b, Val: val},
+		{Kind: kPrecommit, H: h, R: 1, From: a, Val: val},
+		{Kind: kPrecommit, H: h, R: 1, From: b, Val: val},
+		{Kind: kPrevote, H: h, R: 0, From: b, Val: val}, // late
+		{Kind: kPrecommit, H: h, R: 1, From: c, Val: val},
+		{Kind: kPrevote, H: h, R: 1, From: c, Val: val},
+	}
 }
